@@ -166,7 +166,11 @@ func runG(c *hx.Ctx, r *hx.Rng, n int) error {
 				}
 				if se > ie {
 					misaligned = true
-					viol = append(viol, [2]string{"shard-group-outlives-index-group", fmt.Sprintf("the shard group made for %d ends %d ns after the index group its shards were given (%s) ;; history: %s", t, se-ie, ans, hist)})
+					cls := "shard-group-outlives-index-group"
+					if !altered {
+						cls = "shard-group-outlives-index-group-without-alter" // never on the unchanged tree (aligned_without_alter)
+					}
+					viol = append(viol, [2]string{cls, fmt.Sprintf("the shard group made for %d ends %d ns after the index group its shards were given (%s) ;; history: %s", t, se-ie, ans, hist)})
 				}
 			}); perr != "" {
 				ans = "err " + perr
